@@ -196,7 +196,13 @@ func checkC10(c *Ctx) {
 		construct := sprintf("%s: dispatch #%d", pn, nDisp)
 		// find the injector call on the ctx chain
 		var inj *ssa.Call
-		v := call.Call.Args[0]
+		var v ssa.Value
+		for _, a := range call.Call.Args {
+			if ir.TypeStr(a.Type()) == "context.Context" {
+				v = a // the context argument, wherever the receiver sits (interface or concrete dispatcher)
+				break
+			}
+		}
 		for i := 0; i < 8 && v != nil; i++ {
 			switch x := v.(type) {
 			case *ssa.Call:
